@@ -42,6 +42,12 @@ func scenarioRoute() int {
 		return 2
 	}
 	defer w.Close()
+	// the highest port there is, at two of the next hops
+	for _, h := range w.Hops[:2] {
+		if e, err := w.Net.UDP(fmt.Sprintf("nh:%s:65535/udp", h.IP), h.IP+":65535"); err == nil {
+			h.UDP[65535] = e
+		}
+	}
 	g := sip.NewGen(shardSeed(run.Seed))
 	n := *flagCases
 	if n == 0 {
@@ -324,6 +330,9 @@ func genRouteCase(w *wire.World, g *sip.Gen, i int) *routeCase {
 			host, hs = wire.PeerName, "service-name"
 		}
 		port := []int{0, wire.NextHopPortA, wire.NextHopPortB}[g.R.Intn(3)]
+		if _, ok := h.UDP[65535]; ok && g.R.Intn(5) == 0 {
+			port = 65535
+		}
 		tr := []string{"", "udp", "tcp", "TCP", "UDP", "tls", "sctp"}[g.R.Intn(7)]
 		if g.R.Intn(3) == 0 {
 			tr = []string{"", "tcp"}[g.R.Intn(2)]
